@@ -54,6 +54,8 @@ PROP = dict(
     run_targets=["Run/RunC07.vo"],
     prop_targets=["Properties/C07.vo"],
     cases=dict(quick=8000, thorough=60000),
+    release_quick=4,      # quick tier: cases/4 more against the release build (no debug_assert!, fm_dbg = false)
+    release_too=True,     # thorough tier: cases/2 more against the release build
     level="proof",
     rule="graphs from 9 families (random symmetric at 4 densities, grid, path, star, disconnected, isolated incl. trailing "
          "isolated vertices, complete, cycle, tiny/edgeless/empty) x 3 edge-weight ranges x 7 two-way partition families "
@@ -61,7 +63,12 @@ PROP = dict(
          "families (ones, random 0..9, half zeros, one dominant, all zero) x max_imbalance in {None, 0, 0.1, 0.25, 0.5, 1, "
          "-0.5, random in [0,2)} x max_passes/max_moves_per_pass in {None,0,1,2,3,4..20} x max_bad_move_in_a_row 0..3; "
          "plus a malformed stream (10%: self-loop, weights/partition length mismatch, part id > 1, negative weight, "
-         "NaN/huge/infinite max_imbalance, directed edge). Each case carries the implementation's own trace (per pass: "
+         "NaN/huge/infinite max_imbalance, directed edge) and a heavy-edge family (4%: 2-6 vertices, edges of weight "
+         "66000..140000 (thorough: up to 10^6) mixed with light ones so that weighted degrees exceed 2^16, one-sided / "
+         "heavy-edge-on-one-side / random partitions, max_bad_move_in_a_row 1..3, several passes: huge negative gains are "
+         "booked, moved and followed by good moves). The quick tier runs cases/4 more, the thorough tier cases/2 more, "
+         "against the RELEASE build of the harness (no debug_assert!; the model's fm_dbg flag follows the profile recorded "
+         "in each case); a watchdog reports a hang or a runaway move loop as IHang (prop_ok = false). Each case carries the implementation's own trace (per pass: "
          "recorded cut, moves (vertex, gain)) which the model replays and checks for admissibility; distinct = distinct "
          "(input, parameters, trace), i.e. distinct executions; non-trivial = contract stream and at least one move made",
     class_names={0: "Ok unchanged", 1: "Ok changed", 2: "panic (in contract)", 3: "hang", 4: "error (in contract)",
@@ -80,7 +87,8 @@ PROP = dict(
         "num_traits: i64::to_f64 rounds to nearest, W::from_f64 for i64 truncates toward zero and is None outside [-2^63, 2^63) / NaN",
         "the adjacency matrix is a valid sprs CSR matrix (rows sorted by column), symmetric, without self-loops "
         "(self-loops: the gain counts the loop, the cut does not -- the debug assertion fires; malformed stream, prop_ok = true)",
-        "the harness is built with debug assertions (fm_dbg = true in the run glue)",
+        "each case records whether the harness that produced it was built with debug assertions; the model's fm_dbg follows it",
+        "the gain table is modelled as its range check plus the non-empty buckets in descending gain order (an absent gain = an empty HashSet)",
     ],
 )
 
@@ -96,7 +104,7 @@ MANIFEST = dict(
          "that final partition and Metadata coincide; a checker proved equivalent to the property clauses judges every "
          "implementation output; the operators/literals deciding the property are re-read from the source.",
     design_ref="DESIGN.md §7 C07",
-    note="Trusted: Coq kernel; model<->code tie = translator (shape of 9 code fragments) + trace-replay differential runs (8k/60k "
+    note="Trusted: Coq kernel; model<->code tie = translator (shape of 9 code fragments) + trace-replay differential runs (8k+2k release / 60k+30k release "
          "executions); SpecFloat = hardware f64 for the cap formula; HashSet yields each member once; i64 sums do not overflow. "
          "No axioms. Self-loops / non-symmetric matrices are outside the contract (the debug assertion fires there).",
     technique="Coq proof (state invariant over all admissible move sequences; cut_flip lemma of Lib/Graph.v) + translator + "
